@@ -61,7 +61,7 @@ def check_kind(obj):
     return 'unknown'
 
 
-def build_program(prog, residue_check=True):
+def build_program(prog, residue_check=True, desc=True):
     """Returns dict(canon, flags, sem, info)."""
     from sc3.synth.synthdef import SynthDef
     from sc3.synth import ugen as ugn
@@ -265,7 +265,7 @@ def build_program(prog, residue_check=True):
     out['name'] = d['name']
     out['nunits'] = len(d['ugens'])
     out['classes'] = sorted({u['cls'] for u in d['ugens']})
-    out['desc'] = desc_check(prog, raw, d)
+    out['desc'] = desc_check(prog, raw, d) if desc else None
     if out['skip'] != 'inexact-constant' and not out['nan_const']:       # rounded constants: evaluation over Q is meaningless
         try:
             out['sem'] = semantic_oracle(prog, rec, sd, d)
@@ -590,7 +590,8 @@ def desc_probe(payload):
             d = repr(tuple(dflt)) if isinstance(dflt, list) else repr(dflt)
             ann = f":'{rate}'" if rate else ''
             parts.append(f'{name}{ann}={d}')
-        src = 'def f(' + ', '.join(parts) + '):\n    Out.kr(0, 0.5)\n'
+        bus = payload.get('bus', {}).get(str(len(res)))
+        src = 'def f(' + ', '.join(parts) + '):\n    Out.kr(' + (bus if bus else '0') + ', 0.5)\n'
         ns = {}
         from sc3.synth.ugens.inout import Out
         ns['Out'] = Out
@@ -603,6 +604,8 @@ def desc_probe(payload):
             res.append({'pnames': d['pnames'], 'params': [fmt_frac(x) for x in d['params']],
                         'controls': [(u['cls'], u['rate'], u['sp'], len(u['outs'])) for u in d['ugens'] if 'Control' in u['cls']],
                         'desc_names': list(desc.control_names),
+                        'out_start': [str(o.starting_channel) if isinstance(o.starting_channel, str) else fmt_frac(o.starting_channel)
+                                      for o in desc.outputs],
                         'desc': {n: [c.index, c.rate, ([fmt_frac(v) for v in c.default_value] if isinstance(c.default_value, list) else fmt_frac(c.default_value))]
                                  for n, c in desc.control_dict.items()}})
         except Exception as ex:
